@@ -197,4 +197,6 @@ def run(ctx):
     rep.floor('R11.3', 'filters established', n_filters, 4 * ns)
     from rules import profile
     profile.check(ctx, rep, 'R11.P', ['opaque_ke::keypair::PublicKey::<KG>::deserialize', '<opaque_ke::keypair::PrivateKey<KG> as opaque_ke::keypair::SecretKey<KG>>::deserialize'])
+    from rules import witness
+    witness.check(ctx, rep, 'R11.W', ['WNewtypePk', 'WNewtypeSk'])
     return rep
